@@ -296,3 +296,51 @@ ASSUMPTIONS = [
 def main(tier, seed, only):
     return common.run_property(PID, "harness.C05", tier, seed, "", ASSUMPTIONS, BOUNDS, only=only,
                                extra=None if only and "paramflow_query" not in only else paramflow_pass)
+
+
+# ---------------------------------------------------------------- query with a REAL classifier and sample weights
+def sc_real_clf(d, strat, n, weights_dtype):
+    """UncertaintySampling / QueryByCommittee fit real ParzenWindowClassifier / MixtureModelClassifier clones inside
+    query: X, y and the caller's sample_weight array are unchanged afterwards (the helpers underneath fit -
+    compute_vote_vectors, _validate_data - work on copies), and the caller's classifier is not fitted"""
+    from skactiveml.classifier import ParzenWindowClassifier
+    P = pl.pool()
+    idx = [d.choose(f"label{i}", [-1, 0, 1]) for i in range(n)]
+    if all(k >= 0 for k in idx):
+        if d.sym:
+            raise core.PathAbort("no candidate")
+        return
+    xs = [d.fl(f"x{i}", lo=-2.0, hi=2.0) for i in range(n)]
+    ws = [d.fl(f"w{i}", lo=0.0, hi=4.0) for i in range(n)]
+    X = d.arr([[x] for x in xs], shape=(n, 1))
+    y = d.arr([float("nan") if k < 0 else float(k) for k in idx])
+    sw = d.arr(ws)
+    X0, y0, w0 = X.copy(), y.copy(), sw.copy()
+    seed = d.integer("seed", 0, 2 ** 31 - 2)
+    clf = ParzenWindowClassifier(classes=[0.0, 1.0], metric="rbf", metric_dict={"gamma": 0.5}, random_state=seed)
+    try:
+        if strat == "UncertaintySampling":
+            P.UncertaintySampling(method="least_confident", random_state=seed).query(X, y, clf, fit_clf=True, sample_weight=sw, batch_size=1)
+        else:
+            ens = [clf, ParzenWindowClassifier(classes=[0.0, 1.0], metric="rbf", metric_dict={"gamma": 1.0}, random_state=seed)]
+            P.QueryByCommittee(random_state=seed).query(X, y, ens, fit_ensemble=True, sample_weight=sw, batch_size=1)
+    except (core.Unencodable, core.PathAbort):
+        raise
+    except Exception as e:
+        d.prove(False, "query_succeeds", info=dict(error=repr(e)[:160]))
+        return
+    d.prove(d.eq_arr(X, X0), "X_unchanged")
+    d.prove(d.eq_arr(y, y0), "y_unchanged")
+    d.prove(d.eq_arr(sw, w0), "sample_weight_unchanged")
+    d.prove(not hasattr(clf, "X_") and not hasattr(clf, "classes_"), "caller_model_not_fitted")
+    d.witness(any(k >= 0 for k in idx), "some_labeled")
+
+
+HARNESSES.append(common.dual_harness(
+    "query_with_real_classifier", sc_real_clf,
+    lambda tier: [dict(strat=s, n=n, weights_dtype="float") for s in ("UncertaintySampling", "QueryByCommittee")
+                  for n in ((2,) if tier == "quick" else (2, 3))],
+    ["skactiveml.pool._uncertainty_sampling:UncertaintySampling.query", "skactiveml.pool._query_by_committee:QueryByCommittee.query",
+     "skactiveml.classifier._parzen_window_classifier:ParzenWindowClassifier.fit", "skactiveml.utils._aggregation:compute_vote_vectors",
+     "skactiveml.base:SkactivemlClassifier._validate_data"],
+    required_witnesses=("some_labeled",), product_abstraction=True))
